@@ -256,7 +256,8 @@ type request struct {
 	MW        bool
 	Presented string // id presented through the configured source ("" = nothing presented)
 	Class     string // how the id was chosen (jar, old, forged-random, …)
-	Cookie    string // `source` family: an id additionally presented as a cookie of the same name
+	Cookie    string // an id additionally presented through a source that is NOT the configured one
+	AltSrc    string // which one: "" / "cookie", "header", "query" (always under the configured name)
 	Outer     bool   // store API in a handler in front of the middleware: Pre, (MW + Ops), Post
 	Pre       []op
 	Post      []op
@@ -301,9 +302,10 @@ type judge struct {
 	vs      []vio
 	stop    bool
 	// what happened, for the non-triviality rule and statistics
-	otherName []string // "name=id" emitted under a differently-cased cookie name
-	usedDead  string   // cause of death of a dead id that was presented / looked up
-	deadProbe int
+	otherName  []string // "name=id" emitted under a differently-cased cookie name
+	saveFailed bool     // a Save of this request could not encode the data (unregistered value type)
+	usedDead   string   // cause of death of a dead id that was presented / looked up
+	deadProbe  int
 }
 
 func (j *judge) fail(v *vio) {
@@ -403,6 +405,15 @@ func (j *judge) acquire(o *opObs, first bool, where string) {
 		j.fail(&vio{"data-mismatch|non-harness-content|" + j.via, where + ": " + strings.Join(v.Odd, ",")})
 		return
 	}
+	if alt := j.rq.Cookie; first && alt != "" && alt != j.rq.Presented && v.ID == alt {
+		src := j.rq.AltSrc
+		if src == "" {
+			src = "cookie"
+		}
+		j.fail(&vio{"source|" + src + "-consulted-though-source-is-" + w.cfg.Source,
+			fmt.Sprintf("%s: KeyLookup is %s:%s; the request presents %q there and id %q in the %s — the handler got the session named by the %s", where, w.cfg.Source, w.cfg.Name, short(j.rq.Presented), short(alt), src, src)})
+		return
+	}
 	cands := []string{}
 	if !first {
 		for i := len(j.created) - 1; i >= 0; i-- {
@@ -480,6 +491,15 @@ func (j *judge) acquire(o *opObs, first bool, where string) {
 func (j *judge) persist() {
 	w := j.w
 	c := &j.cur
+	for _, v := range c.data {
+		if v == badVal {
+			// the data cannot be encoded: this save fails and stores nothing; what the request
+			// answers is not judged, the id may or may not have been handed to the client
+			j.saveFailed = true
+			j.emit = emission{kind: emNone}
+			return
+		}
+	}
 	idle := c.idle
 	if idle <= 0 {
 		idle = w.cfg.Idle
@@ -625,7 +645,11 @@ func (j *judge) step(o op, r *opObs, idx int) {
 	case "idle":
 		c.idle = o.Dur
 	case "save":
-		if r.Err != "" {
+		poisoned := false
+		for _, v := range c.data {
+			poisoned = poisoned || v == badVal
+		}
+		if r.Err != "" && !(poisoned && !j.mw) {
 			j.fail(&vio{"api|save-error|" + j.via, where + ": " + r.Err})
 			return
 		}
@@ -830,6 +854,8 @@ func (j *judge) judgeEmission(obs []seen) {
 		j.fail(&vio{"adopt|emitted-id-not-issued|" + w.cfg.Source, fmt.Sprintf("response tells the client to use id %q which the server never generated", short(live))})
 	case live != "" && j.emit.kind == emID && live != j.emit.id:
 		j.fail(&vio{"emit|wrong-id|" + w.cfg.Source, fmt.Sprintf("response carries id %q, the session was saved under %q", live, j.emit.id)})
+	case live != "" && j.emit.kind != emID && j.saveFailed:
+		// the save failed after the id had been written to the response: not judged
 	case live != "" && j.emit.kind != emID:
 		if _, dead := w.dead[live]; dead && w.store[live] == nil {
 			j.fail(&vio{"emit|dead-id-emitted|after-" + w.dead[live] + "|" + w.cfg.Source, fmt.Sprintf("response carries id %q which ended by %s", live, w.dead[live])})
